@@ -136,6 +136,9 @@ func genRandomBat(rng *rand.Rand, name string, o batOpts) *Scenario {
 	if nops > 0 {
 		nops = nops/2 + rng.Intn(nops)
 	}
+	if !sc.ErrFull && nops > sc.BufCap+6 {
+		nops = sc.BufCap + 6 // bounds the number of callers blocked at once (each one multiplies the interleavings to replay)
+	}
 	if !chance(rng, o.startLateP) {
 		steps = append(steps, Step{At: 0, Kind: "start"})
 		started = true
@@ -372,5 +375,137 @@ func genSmoke(rng *rand.Rand, idx int) *Scenario {
 }
 
 func genFamily(rng *rand.Rand, family string, idx int, o batOpts) *Scenario {
-	return nil
+	switch family {
+	case "coincide": // everything on tick instants, zero-duration callbacks, bursts
+		o.coincideP = 0.6
+		o.durs = []int64{0, 0, 100 * MS, 20 * MS, -1}
+		o.flushes = []int64{100 * MS, 20 * MS}
+		o.capints = []int64{100 * MS, 20 * MS, 40 * MS}
+		o.audits = []int64{100 * MS, 200 * MS, 1 * SEC}
+		o.maxops = []int64{100 * MS, 40 * MS, 200 * MS}
+		o.pauses = []int64{100 * MS, 20 * MS, 60 * MS}
+		o.nOps = []int{3, 6, 10}
+		o.maxReenq = 1
+		o.gapMS = []int64{20, 60}
+	case "dups": // the same operation object enqueued several times, small
+		o.reenqP = 0.5
+		o.maxReenq = 6
+		o.nOps = []int{3, 5, 8}
+		o.maxAttempts = []uint32{0, 1, 2, 3}
+	case "slots": // v2 with a concurrency limit and slow / stuck callbacks
+		o.gens = []int{2}
+		o.maxconcs = []int{1, 1, 2, 3, 4}
+		o.durs = []int64{0, 1*MS + 13, 170*MS + 3, 450*MS + 9, -1, -1, -2}
+		o.maxops = []int64{300 * MS, 2 * SEC, 40 * MS}
+		o.wMaxOps = []int64{0, 0, -1, 1}
+		o.limiterP = 0.3
+	case "slots-any": // as slots, but watchers may outlast the Batcher's MaxOperationTime (outside C10's hypothesis)
+		o.gens = []int{2}
+		o.maxconcs = []int{1, 2, 3}
+		o.durs = []int64{0, 170*MS + 3, -1, -2}
+		o.audits = []int64{50 * MS, 330 * MS}
+		o.maxops = []int64{40 * MS, 300 * MS}
+		o.wMaxOps = []int64{0, 2, 2}
+	case "limiter": // rate limiting: costs against allowances, changing capacity, manual flushes
+		o.limiterP = 1
+		o.caps = []int64{0, 1, 5, 9, 10, 30, 70, 100, 580, 1000, 100000}
+		o.costs = []int64{0, 1, 2, 3, 5, 7, 10, 29, 58}
+		o.capChangeP = 0.15
+		o.flushP = 0.2
+		o.flushes = []int64{0, 100 * MS, 20 * MS, 7 * MS, 250 * MS, 1 * MS, 1 * SEC, 3 * SEC}
+		o.nOps = []int{8, 20, 40, 80}
+		o.bufcaps = []int{8, 50, 200}
+		o.maxconcs = []int{0}
+	case "smallcap": // capacities below one unit per interval, backlog (starvation)
+		o.limiterP = 1
+		o.caps = []int64{1, 2, 3, 9, 11, 50}
+		o.costs = []int64{0, 1, 1, 2, 5}
+		o.flushes = []int64{0, 100 * MS, 20 * MS, 1 * MS, 250 * MS, 1 * SEC}
+		o.nOps = []int{5, 20, 40}
+		o.bufcaps = []int{50, 200}
+		o.horizonMin = 8 * SEC
+		o.stopMidP = 0
+	case "accounting": // demand figure: rejects of every kind, blocked callers, slow and stuck callbacks, audits, pauses
+		o.errFullP = 0.5
+		o.bufcaps = []int{1, 2, 3, 5}
+		o.rejectP = 0.15
+		o.durs = []int64{0, 1*MS + 13, 30*MS + 7, 170*MS + 3, -1, -1, -2}
+		o.audits = []int64{50 * MS, 330 * MS, 1 * SEC}
+		o.maxops = []int64{40 * MS, 300 * MS, 2 * SEC}
+		o.wMaxOps = []int64{0, 0, -1, 1}
+		o.pauseP = 0.1
+		o.probeP = 0.4
+		o.maxAttempts = []uint32{0, 1, 2}
+		o.reenqP = 0.2
+	case "hold": // callers parked between counting and inserting while audits fire
+		o.holdP = 0.25
+		o.audits = []int64{30 * MS, 50 * MS, 110 * MS}
+		o.maxops = []int64{20 * MS, 40 * MS}
+		o.wMaxOps = []int64{0, 0, 1}
+		o.durs = []int64{0, 1*MS + 13, 7*MS + 7}
+		o.gapMS = []int64{10, 40, 150}
+		o.nOps = []int{3, 8}
+		o.probeP = 0.4
+	case "stale": // operations whose cost differs at completion: the demand figure goes stale and the audit repairs it
+		o.costShiftP = 0.4
+		o.audits = []int64{50 * MS, 330 * MS}
+		o.maxops = []int64{40 * MS, 300 * MS}
+		o.wMaxOps = []int64{0, 0, 1}
+		o.durs = []int64{0, 1*MS + 13, 30*MS + 7}
+		o.horizonMin = 2 * SEC
+		o.probeP = 0.4
+		o.reenqP = 0
+	case "timeouts": // MaxOperationTime: all sign combinations, callbacks around the limit, probes
+		o.maxops = []int64{0, -3 * MS, 40 * MS, 300 * MS, 2 * SEC}
+		o.wMaxOps = []int64{0, -1, 1, 2}
+		o.durs = []int64{-1, -1, -1, -2, 0, 30*MS + 7}
+		o.probeP = 0.5
+		o.audits = []int64{0}
+		o.nOps = []int{1, 3, 6}
+		o.horizonMin = 5 * SEC
+	case "ticks": // capacity / audit intervals, pauses overlapping ticks, shutdown at any instant
+		o.limiterP = 0.8
+		o.capints = []int64{0, -5 * MS, 1 * MS, 30 * MS, 70 * MS, 100 * MS, 1 * SEC}
+		o.audits = []int64{0, -1 * MS, 50 * MS, 330 * MS, 1 * SEC}
+		o.pauses = []int64{0, 3 * MS, 250 * MS, 2 * SEC}
+		o.pauseP = 0.15
+		o.coincideP = 0.2
+		o.stopMidP = 0.4
+	case "pauses":
+		o.pauses = []int64{0, -7 * MS, 1 * MS, 3 * MS, 250 * MS, 2 * SEC}
+		o.pauseP = 0.5
+		o.coincideP = 0.2
+		o.stopMidP = 0.3
+		o.nOps = []int{3, 8, 20}
+	case "admission": // the decision table of Enqueue and retry histories
+		o.rejectP = 0.3
+		o.maxAttempts = []uint32{0, 1, 2, 3}
+		o.reenqP = 0.45
+		o.maxReenq = 8
+		o.nOps = []int{3, 6, 10}
+		o.costs = []int64{0, 1, 5, 40, 100, 101}
+		o.caps = []int64{100}
+		o.maxcapSlack = []int64{0}
+		o.durs = []int64{0, 1*MS + 13}
+		o.gapMS = []int64{150, 400}
+	case "buffer": // small buffers, bursts of callers, both full-buffer modes, shutdown while callers are blocked
+		o.bufcaps = []int{1, 1, 2, 3}
+		o.burstP = 0.6
+		o.errFullP = 0.4
+		o.stopMidP = 0.5
+		o.nOps = []int{5, 10, 25}
+		o.maxconcs = []int{0, 1, 2}
+		o.durs = []int64{0, 30*MS + 7, 170*MS + 3}
+	case "lifecycle": // orders of Start / Pause / Flush / Enqueue / Stop
+		o.startLateP = 0.5
+		o.stopMidP = 0.7
+		o.pauseP = 0.3
+		o.flushP = 0.3
+		o.setterP = 0.15
+		o.nOps = []int{0, 2, 5}
+		o.bufcaps = []int{1, 2, 8}
+	default:
+		return nil
+	}
+	return genRandomBat(rng, family, o)
 }
